@@ -508,7 +508,34 @@ impl<'a> TransactionRebase<'a> {
                 }
                 // Although some of the rows we indexed may have been deleted / moved,
                 // row ids are still valid, so we allow this optimistically.
-                Operation::Delete { .. } | Operation::Update { .. } => Ok(()),
+                Operation::Delete { .. } => Ok(()),
+                Operation::Update {
+                    updated_fragments,
+                    fields_modified,
+                    ..
+                } => {
+                    // An update that rewrote an indexed column in place changed the values of
+                    // fragments we indexed: the index would claim them with the old values.
+                    let indexed_values_changed = new_indices.iter().any(|idx| {
+                        idx.fields
+                            .iter()
+                            .any(|field| fields_modified.contains(&(*field as u32)))
+                            && updated_fragments.iter().any(|frag| {
+                                idx.fragment_bitmap
+                                    .as_ref()
+                                    .is_none_or(|bitmap| bitmap.contains(frag.id as u32))
+                            })
+                    });
+                    if indexed_values_changed {
+                        Err(self.retryable_conflict_err(
+                            other_transaction,
+                            other_version,
+                            location!(),
+                        ))
+                    } else {
+                        Ok(())
+                    }
+                }
                 // Merge, reserve, and project don't change row ids, so this should be fine.
                 Operation::Merge { .. } => Ok(()),
                 Operation::ReserveFragments { .. } => Ok(()),
